@@ -566,7 +566,11 @@ func (s *Sim) reconfigure(client string, a Action) {
 	if applied {
 		// the instance must still count as running: an ordinary update is refused while the pipeline runs
 		inst, gerr := s.st.proc.Get(base, procID)
-		if gerr == nil {
+		// (only while the processor this request switched in is still open: a pipeline that is
+		// stopping has torn it down already and an ordinary update is then legitimate)
+		ps := w.procs[procID]
+		stillOpen := ps != nil && ps.opened[ps.gens] > ps.torndown[ps.gens]
+		if gerr == nil && stillOpen {
 			if _, uerr := s.st.proc.Update(base, procID, inst.Plugin, inst.Config); uerr == nil {
 				if st, _, ok := w.db.durableStatus(PipelineID); ok && st == 1 && w.memStatus() == 1 {
 					w.violate("C13", "running-guard-lost", fmt.Sprintf("after a live reconfigure of %s the processor no longer counts as running: an ordinary update was accepted while the pipeline runs", procID))
